@@ -50,6 +50,10 @@ func tokenize(src string) []token {
 	var toks []token
 	var tmplStack []int // brace depth at which each open template substitution started
 	brace := 0
+	// stmtAfter[k] records, for every open "(" / "{" / "[", whether a statement (and therefore
+	// possibly a regular expression) may follow its closing bracket.
+	var stmtAfter []bool
+	lastClosedStmt := false
 	nl := false
 	i := 0
 	n := len(src)
@@ -67,7 +71,9 @@ func tokenize(src string) []token {
 			return p.tmpl == 1 || p.tmpl == 2
 		case tPunct:
 			switch p.s {
-			case ")", "]", "}":
+			case ")", "}":
+				return lastClosedStmt
+			case "]":
 				return false
 			case "++", "--":
 				if len(toks) >= 2 {
@@ -294,10 +300,38 @@ func tokenize(src string) []token {
 			if matched == "" {
 				matched = src[i : i+1]
 			}
-			if matched == "{" {
+			switch matched {
+			case "(":
+				prevKw := len(toks) > 0 && toks[len(toks)-1].k == tIdent && (toks[len(toks)-1].s == "if" || toks[len(toks)-1].s == "while" || toks[len(toks)-1].s == "for" || toks[len(toks)-1].s == "with")
+				stmtAfter = append(stmtAfter, prevKw)
+			case "[":
+				stmtAfter = append(stmtAfter, false)
+			case "{":
 				brace++
-			} else if matched == "}" {
-				brace--
+				block := true
+				if len(toks) > 0 {
+					p := toks[len(toks)-1]
+					switch p.k {
+					case tPunct:
+						block = p.s == ")" || p.s == ";" || p.s == "{" || p.s == "}" || p.s == "=>" || p.s == ":" && false
+					case tIdent:
+						block = !(p.s == "return" || p.s == "typeof" || p.s == "in" || p.s == "of" || p.s == "instanceof" || p.s == "new" || p.s == "void" || p.s == "delete" || p.s == "throw" || p.s == "case" || p.s == "yield" || p.s == "await")
+					case tTemplate:
+						block = false
+					default:
+						block = false
+					}
+				}
+				stmtAfter = append(stmtAfter, block)
+			case ")", "]", "}":
+				if matched == "}" {
+					brace--
+				}
+				lastClosedStmt = false
+				if len(stmtAfter) > 0 {
+					lastClosedStmt = stmtAfter[len(stmtAfter)-1]
+					stmtAfter = stmtAfter[:len(stmtAfter)-1]
+				}
 			}
 			toks = append(toks, token{k: tPunct, s: matched, pos: i, end: i + len(matched), nl: nl})
 			i += len(matched)
